@@ -237,7 +237,9 @@ class ModeBasis(object):
                 self._transformation_matrix, b, damp=dampening_factor, atol=1e-13, btol=1e-13, maxiter=maxiter)
             return x
         else:
-            x, residuals, rank, s = np.linalg.lstsq(self._transformation_matrix, b)
+            # A Field `b` would hand its class and grid to the solution (numpy wraps the result like `b`
+            # for array subclasses), yielding a "Field" of num_modes values on the grid of the modes.
+            x, residuals, rank, s = np.linalg.lstsq(self._transformation_matrix, np.asarray(b))
             return x
 
     def linear_combination(self, coefficients):
